@@ -72,3 +72,288 @@ Proof.
   - destruct obs as [ids|x|]; cbn [outcome_eqb] in Hrun; try discriminate.
     cbn in Hrun. destruct ids; [reflexivity | discriminate].
 Qed.
+
+(** ** lock_outputs cases *)
+
+Lemma spender_eqb_eq a b : spender_eqb a b = true <-> a = b.
+Proof.
+  destruct a as [a1 a2 a3], b as [b1 b2 b3]. unfold spender_eqb. cbn.
+  rewrite !andb_true_iff, !(option_eqb_spec Z.eqb Z.eqb_eq), Z.eqb_eq.
+  split; [intros [[-> ->] ->]; reflexivity | intros H; inversion H; auto].
+Qed.
+
+Lemma row_eqb_eq a b : row_eqb a b = true <-> a = b.
+Proof.
+  destruct a, b. unfold row_eqb. cbn.
+  rewrite !andb_true_iff, !(option_eqb_spec Z.eqb Z.eqb_eq), !Z.eqb_eq, !Bool.eqb_true_iff, pool_eqb_eq,
+    (list_eqb_spec spender_eqb spender_eqb_eq).
+  split.
+  - intros H. repeat match goal with H : _ /\ _ |- _ => destruct H end. subst. reflexivity.
+  - intros H. inversion H. subst. repeat split; reflexivity.
+Qed.
+
+Lemma rows_eqb_eq a b : list_eqb row_eqb a b = true <-> a = b.
+Proof. apply list_eqb_spec. exact row_eqb_eq. Qed.
+
+Definition in_refs (refs : list (pool * Z)) (r : note_row) : bool := existsb (fun x => same_ref x r) refs.
+
+Lemma same_ref_set_lock x o ex r : same_ref x (set_lock o ex r) = same_ref x r.
+Proof. reflexivity. Qed.
+
+Lemma unique_row db r r0 :
+  NoDup (rrefs db) -> In r db -> In r0 db -> (r_pool r, r_id r) = (r_pool r0, r_id r0) -> r = r0.
+Proof.
+  unfold rrefs. induction db as [|y t IH]; intros Hn Hin Hin0 E; [contradiction|].
+  cbn in Hn. inversion Hn as [|? ? Hy Ht]; subst.
+  destruct Hin as [->|Hin], Hin0 as [->|Hin0]; [reflexivity | | | apply IH; assumption].
+  - exfalso. apply Hy. apply in_map_iff. exists r0. split; [congruence | exact Hin0].
+  - exfalso. apply Hy. apply in_map_iff. exists r. split; [congruence | exact Hin].
+Qed.
+
+Lemma lock_outputs_char tip owner expiry refs : forall db db',
+  NoDup (rrefs db) ->
+  lock_outputs tip owner expiry refs db = Some db' ->
+  db' = map (fun r => if in_refs refs r then set_lock owner expiry r else r) db
+  /\ (forall r, In r db -> in_refs refs r = true -> lockable_spec tip owner r = true)
+  /\ (forall x, In x refs -> exists r, In r db /\ same_ref x r = true).
+Proof.
+  induction refs as [|x t IH]; intros db db' Hn H; cbn in H.
+  - inversion H; subst. split; [symmetry; apply map_id|]. split; [intros r _ Hr; discriminate | intros x []].
+  - destruct (lock_one tip owner expiry x db) as [db1|] eqn:E; [|discriminate].
+    pose proof (lock_one_refs _ _ _ _ _ _ E) as Hr1.
+    assert (Hn1 : NoDup (rrefs db1)) by (rewrite Hr1; exact Hn).
+    destruct (IH db1 db' Hn1 H) as [Hdb' [Hlk Hfound]].
+    unfold lock_one in E. destruct (existsb _ db) eqn:Ex; [|discriminate]. inversion E; subst db1. clear E.
+    apply existsb_exists in Ex. destruct Ex as [r0 [Hr0 Ex]]. apply andb_true_iff in Ex. destruct Ex as [Es El].
+    assert (Huniq : forall r, In r db -> same_ref x r = true -> r = r0).
+    { intros r Hr Hs. apply same_ref_eq in Hs, Es. apply (unique_row db r r0 Hn Hr Hr0). rewrite <- Hs. exact Es. }
+    split; [|split].
+    + rewrite Hdb', map_map. apply map_ext_in. intros r Hr. cbn [in_refs existsb].
+      destruct (same_ref x r) eqn:Sx.
+      * assert (r = r0) by (apply Huniq; assumption). subst r. rewrite El. cbn [andb orb].
+        destruct (in_refs t (set_lock owner expiry r0)); reflexivity.
+      * cbn [andb orb]. reflexivity.
+    + intros r Hr Hin. cbn [in_refs existsb] in Hin. destruct (same_ref x r) eqn:Sx.
+      * rewrite (Huniq r Hr Sx). rewrite <- lockable_is_spec. exact El.
+      * cbn [orb] in Hin. apply Hlk; [|exact Hin].
+        apply in_map_iff. exists r. rewrite Sx. cbn [andb]. split; [reflexivity | exact Hr].
+    + intros y [<-|Hy]; [exists r0; split; assumption|].
+      destruct (Hfound y Hy) as [r1 [Hr1in Hs1]]. apply in_map_iff in Hr1in. destruct Hr1in as [r [Hr Hin]].
+      exists r. split; [exact Hin|]. subst r1. destruct (same_ref x r && lockable tip owner r); exact Hs1.
+Qed.
+
+Lemma lockable_spec_not_stolen tip owner r :
+  match r_lock r with Some h => 0 <= h | None => True end ->
+  lockable_spec tip owner r = true ->
+  not_locked_by_other (match tip with Some t => t + 1 | None => 0 end) [owner] r = true.
+Proof.
+  unfold lockable_spec, not_locked_by_other. destruct (r_lock r) as [h|]; [|reflexivity].
+  intros Hh. destruct tip as [t|], (r_owner r) as [o|]; cbn; lia.
+Qed.
+
+Theorem bridge_lock db tip refs owner expiry obs post :
+  wf_case (CLock db tip refs owner expiry obs post) = true ->
+  run_case (CLock db tip refs owner expiry obs post) = true ->
+  prop_case (CLock db tip refs owner expiry obs post) = true.
+Proof.
+  intros Hwf Hrun. cbn [wf_case] in Hwf. unfold wf_db in Hwf. apply andb_true_iff in Hwf. destruct Hwf as [Hnd Hrows].
+  apply nodup_refs_spec in Hnd. change (refs_of db) with (rrefs db) in Hnd.
+  cbn [run_case] in Hrun. cbn [prop_case].
+  destruct (lock_outputs tip owner expiry refs db) as [db'|] eqn:E.
+  - destruct obs as [n|x|]; try discriminate.
+    apply andb_true_iff in Hrun. destruct Hrun as [Hn Hpost]. apply rows_eqb_eq in Hpost. subst post.
+    destruct (lock_outputs_char _ _ _ _ _ _ Hnd E) as [-> [Hlk Hfound]].
+    rewrite !andb_true_iff. split; [split; [split|]|].
+    + exact Hn.
+    + rewrite map_length. apply Nat.eqb_refl.
+    + clear E. rewrite forallb_forall in Hrows.
+      assert (Hall : forall l, (forall r, In r l -> In r db) ->
+        forallb (fun rr : note_row * note_row => let '(r, r') := rr in
+           if existsb (fun x => same_ref x r) refs
+           then row_eqb r' (set_lock owner expiry r)
+                && not_locked_by_other (match tip with Some t => t + 1 | None => 0 end) [owner] r
+           else row_eqb r' r)
+          (combine l (map (fun r => if in_refs refs r then set_lock owner expiry r else r) l)) = true).
+      { induction l as [|r t IH]; intros Hsub; [reflexivity|]. cbn [map combine forallb].
+        rewrite IH by (intros y Hy; apply Hsub; right; exact Hy). rewrite andb_true_r.
+        unfold in_refs. destruct (existsb (fun x => same_ref x r) refs) eqn:Ex.
+        - rewrite (proj2 (row_eqb_eq _ _) eq_refl). cbn [andb].
+          apply lockable_spec_not_stolen; [|apply Hlk; [apply Hsub; left; reflexivity | exact Ex]].
+          specialize (Hrows r (Hsub r (or_introl eq_refl))). unfold wf_row in Hrows.
+          rewrite !andb_true_iff in Hrows. destruct (r_lock r); [lia | exact I].
+        - apply row_eqb_eq. reflexivity. }
+      apply Hall. intros r Hr; exact Hr.
+    + apply forallb_forall. intros x Hx. destruct (Hfound x Hx) as [r [Hr Hs]].
+      unfold find_row. destruct (find (same_ref x) db) eqn:F; [reflexivity|].
+      exfalso. pose proof (find_none _ _ F r Hr). congruence.
+  - destruct obs as [n|x|]; try discriminate. exact Hrun.
+Qed.
+
+(** ** propose_transfer cases *)
+From V.C08 Require Import ProofsAnchor.
+
+Lemma insert_ref_perm x l : Permutation (insert_ref x l) (x :: l).
+Proof.
+  induction l as [|y t IH]; cbn; [reflexivity|]. destruct (ref_leb x y); [reflexivity|].
+  rewrite IH. apply perm_swap.
+Qed.
+Lemma sort_refs_perm l : Permutation (sort_refs l) l.
+Proof. induction l as [|x t IH]; cbn; [reflexivity|]. rewrite insert_ref_perm. constructor. exact IH. Qed.
+
+Lemma refs_eqb_eq a b : refs_eqb a b = true -> a = b.
+Proof. apply list_eqb_spec. exact ref_eqb_eq. Qed.
+
+Lemma value_of_refs_perm db a b : Permutation a b -> value_of_refs db a = value_of_refs db b.
+Proof.
+  unfold value_of_refs. induction 1; cbn; try lia.
+  - destruct (find_row db x); lia.
+  - destruct (find_row db x), (find_row db y); lia.
+Qed.
+
+Lemma value_of_rrefs db inputs :
+  NoDup (rrefs db) -> (forall r, In r inputs -> In r db) -> value_of_refs db (rrefs inputs) = sum_values inputs.
+Proof.
+  intros Hn. induction inputs as [|r t IH]; intros Hsub; [reflexivity|].
+  change (value_of_refs db (rrefs (r :: t)))
+    with (match find_row db (r_pool r, r_id r) with
+          | Some r0 => r_value r0 + value_of_refs db (rrefs t)
+          | None => value_of_refs db (rrefs t) end).
+  rewrite (find_row_unique db r Hn (Hsub r (or_introl eq_refl))).
+  rewrite IH by (intros y Hy; apply Hsub; right; exact Hy). reflexivity.
+Qed.
+
+Lemma spendable_policy_mono acct p t a tu pol pol' o r :
+  p_trusted pol <= p_trusted pol' -> p_untrusted pol <= p_untrusted pol' ->
+  spendable (SC acct p t a tu pol' o) r = true -> spendable (SC acct p t a tu pol o) r = true.
+Proof.
+  intros H1 H2. unfold spendable. cbn [sc_acct sc_pool sc_target sc_pol sc_anchor sc_tipuns sc_owners].
+  rewrite !andb_true_iff. intros [[[[[[Ha Hp] Hu] Hc] Hm] Hw] Hl].
+  repeat split; try assumption. eapply confirmed_mono; eassumption.
+Qed.
+
+(** The data source's anchor under the bucketed policy is the boundary itself (a checkpoint exists
+    there for every tree it consults). *)
+Definition canon_sel_at_boundary (c : case) : bool :=
+  match c with
+  | CPropose _ _ _ _ _ _ _ _ _ _ (Some ci) _ _ =>
+      (0 <? c_interval ci)
+      && match c_sel_anchor ci with Some sa => sa =? c_boundary ci | None => true end
+  | _ => true
+  end.
+
+Lemma greedy_no_panic change db e acct pay prefs pol lp iw sa single fuel : forall sel prior req excl,
+  greedy change db e acct pay prefs pol lp iw sa single fuel sel prior req excl <> Panic.
+Proof.
+  induction fuel as [|f IH]; intros sel prior req excl; cbn; [discriminate|].
+  destruct (change sa _); try discriminate.
+  - unfold step_from_parts. destruct (iw && _ && _); [discriminate|]. destruct (_ =? _); discriminate.
+  - destruct (_ <=? prior); [discriminate | apply IH].
+  - destruct (_ <=? prior); [discriminate | apply IH].
+Qed.
+
+Lemma finish_no_panic db e tip lock s : finish db e tip lock s <> Panic.
+Proof.
+  unfold finish, multi_step. destruct (nodup_refs _); [|discriminate].
+  destruct lock as [[o fb]|]; [destruct (lock_outputs _ _ _ _ _)|]; discriminate.
+Qed.
+
+Lemma propose_transfer_no_panic change fuel db e tip acct pay sp oo permitted pol lp lock canon :
+  propose_transfer change fuel db e tip acct pay sp oo permitted pol lp lock canon <> Panic.
+Proof.
+  unfold propose_transfer. destruct (e_anchor e) as [anchor|]; [|discriminate]. cbv zeta.
+  assert (Hord : forall iw,
+    match propose_transaction change db e acct pay (pool_preference iw oo permitted) pol lp iw anchor false fuel with
+    | Ok s => finish db e tip lock s | Err x => Err x | Panic => Panic end <> Panic).
+  { intros iw. destruct (propose_transaction change db e acct pay (pool_preference iw oo permitted) pol lp iw anchor false fuel) eqn:E;
+      [apply finish_no_panic | discriminate | exfalso; eapply greedy_no_panic; exact E]. }
+  destruct canon as [ci|]; [|apply Hord].
+  destruct (sp && is_canonical_denomination pay && existsb (pool_eqb Orchard) permitted); [|apply Hord].
+  destruct (bucketed pol (c_interval ci) (e_target e) (c_activation ci)) as [bp|]; [|apply Hord].
+  destruct (negb (ssub (e_target e) (p_trusted bp) =? c_boundary ci)); [discriminate|].
+  destruct (c_computable ci); [|apply Hord].
+  destruct (propose_transaction change db (Env (e_target e) (c_sel_anchor ci) (e_ranges e)) acct pay
+              (pool_preference true oo [Orchard]) bp lp true (ssub (e_target e) (p_trusted bp)) true fuel) as [s|x|] eqn:E2.
+  - destruct (is_canonical_crossing ci sp oo s); [apply finish_no_panic | apply Hord].
+  - destruct x; try discriminate; apply Hord.
+  - exfalso. eapply greedy_no_panic. exact E2.
+Qed.
+
+Theorem bridge_propose db e acct pay sp oo permitted pol lp lock canon oracle obs :
+  wf_case (CPropose db e acct pay sp oo permitted pol lp lock canon oracle obs) = true ->
+  canon_sel_at_boundary (CPropose db e acct pay sp oo permitted pol lp lock canon oracle obs) = true ->
+  run_case (CPropose db e acct pay sp oo permitted pol lp lock canon oracle obs) = true ->
+  prop_case (CPropose db e acct pay sp oo permitted pol lp lock canon oracle obs) = true.
+Proof.
+  intros Hwf Hcs Hrun. cbn [wf_case] in Hwf. rewrite !andb_true_iff in Hwf.
+  destruct Hwf as [[[[Hdb Hpol] _] _] _]. unfold wf_db in Hdb. apply andb_true_iff in Hdb. destruct Hdb as [Hnd _].
+  apply nodup_refs_spec in Hnd. change (refs_of db) with (rrefs db) in Hnd.
+  unfold wf_policy in Hpol. apply andb_true_iff in Hpol. destruct Hpol as [Ht Hu].
+  assert (Ht' : 1 <= p_trusted pol) by lia. assert (Hu' : p_trusted pol <= p_untrusted pol) by lia.
+  cbn [run_case] in Hrun. cbn [prop_case].
+  destruct (propose_transfer (oracle_fn oracle) FUEL db e (Some (e_target e - 1)) acct pay sp oo permitted pol lp lock canon)
+    as [steps_m|x|] eqn:E; destruct obs as [steps_o|y|]; cbn [outcome_eqb] in Hrun; try discriminate; try reflexivity;
+    [|exfalso; eapply propose_transfer_no_panic; exact E].
+  assert (Hci : forall ci, canon = Some ci -> 0 < c_interval ci).
+  { intros ci ->. cbn in Hcs. apply andb_true_iff in Hcs. lia. }
+  destruct (propose_transfer_sound _ _ _ _ _ _ _ _ _ _ _ _ _ _ _ Hnd Ht' Hu' Hci E) as [Hndm Horig].
+  (* the model returns exactly one step *)
+  assert (exists sm, steps_m = [sm]) as [sm ->].
+  { unfold propose_transfer in E. destruct (e_anchor e); [|discriminate].
+    assert (Hfin : forall s r, finish db e (Some (e_target e - 1)) lock s = Ok r -> exists sm, r = [sm])
+      by (intros s r Hf; apply finish_steps in Hf; destruct Hf as [-> _]; eexists; reflexivity).
+    repeat match type of E with
+    | match ?X with _ => _ end = _ => destruct X eqn:?; try discriminate; try (eapply Hfin; eassumption)
+    end. }
+  destruct steps_o as [|so [|? ?]]; cbn [list_eqb] in Hrun; try discriminate;
+    [|rewrite andb_false_r in Hrun; discriminate].
+  rewrite andb_true_r in Hrun. unfold step_eqb in Hrun. rewrite !andb_true_iff in Hrun.
+  destruct Hrun as [[[[[[Hin Hval] Htin] Hpay] Hch] Hfee] Hanc].
+  apply refs_eqb_eq in Hin.
+  assert (Hperm : Permutation (s_inputs so) (s_inputs sm)).
+  { rewrite <- (sort_refs_perm (s_inputs so)), <- (sort_refs_perm (s_inputs sm)), Hin. reflexivity. }
+  assert (Hchs : s_changes sm = s_changes so).
+  { apply (list_eqb_spec (fun x y => cpool_eqb (fst x) (fst y) && (snd x =? snd y))); [|exact Hch].
+    intros [c1 v1] [c2 v2]. cbn. rewrite andb_true_iff.
+    split; [intros [H1 H2]; f_equal; [|lia]; destruct c1, c2; cbn in H1; try discriminate; [apply pool_eqb_eq in H1; congruence | reflexivity]
+           | intros H; inversion H; subst; split; [destruct c2; cbn; [apply pool_eqb_eq; reflexivity | reflexivity] | lia]]. }
+  assert (Hanc' : s_anchor sm = s_anchor so) by (apply (option_eqb_spec Z.eqb Z.eqb_eq); exact Hanc).
+  (* what the theorem says about the model's step, at the anchor it binds and the caller's policy *)
+  assert (Hm : exists a inputs,
+     s_anchor sm = Some a /\ s_inputs sm = rrefs inputs /\ NoDup (rrefs inputs)
+     /\ s_in_value sm = sum_values inputs /\ s_tin sm = 0 /\ s_pay sm = pay /\ step_balanced sm = true
+     /\ forall r, In r inputs -> In r db /\ In (r_pool r) permitted
+          /\ spendable (SC acct (r_pool r) (e_target e) a (tip_unscanned e (r_pool r) a) pol
+                           (Some (overridable (LFPolicy lp)))) r = true).
+  { destruct (Horig sm (or_introl eq_refl)) as [anchor Ea Hok | ci bp Ec Eb Ebd Hperm' Hok];
+      destruct Hok as [inputs [H1 [H2 [H3 [H4 [H5 [[G1 G2] H6]]]]]]].
+    - exists anchor, inputs. repeat (split; [assumption|]). intros r Hr. destruct (G1 r Hr) as [Hdbr Hb].
+      split; [exact Hdbr|]. unfold okrowb in Hb. rewrite Ea in Hb. apply andb_true_iff in Hb. destruct Hb as [Hp Hs].
+      split; [|exact Hs]. apply existsb_exists in Hp. destruct Hp as [q [Hq Eq]]. apply pool_eqb_eq in Eq. subst q.
+      eapply pool_preference_permitted; exact Hq.
+    - exists (c_boundary ci), inputs. repeat (split; [assumption|]). intros r Hr. destruct (G1 r Hr) as [Hdbr Hb].
+      split; [exact Hdbr|]. unfold okrowb in Hb. cbn [e_anchor e_target] in Hb.
+      destruct (c_sel_anchor ci) as [sa|] eqn:Esa; [|discriminate].
+      subst canon. cbn in Hcs. rewrite Esa in Hcs. apply andb_true_iff in Hcs. destruct Hcs as [_ Hcs].
+      assert (sa = c_boundary ci) by lia. subst sa.
+      apply andb_true_iff in Hb. destruct Hb as [Hp Hs].
+      apply existsb_exists in Hp. destruct Hp as [q [Hq Eq]]. apply pool_eqb_eq in Eq. subst q.
+      apply pool_preference_permitted in Hq. destruct Hq as [Hq|[]].
+      split; [rewrite <- Hq; exact Hperm'|].
+      destruct (bucketed_spec _ _ _ _ _ (Hci ci eq_refl) Ht' Hu' Eb) as [Hb1 [Hb2 _]].
+      eapply spendable_policy_mono; [exact Hb1 | exact Hb2 |]. exact Hs. }
+  destruct Hm as [a [inputs [Ha [Hi [Hni [Hv [Hti [Hp [Hbal Hrows]]]]]]]]].
+  assert (Hin_so : forall x, In x (s_inputs so) -> exists r, In r inputs /\ x = (r_pool r, r_id r)).
+  { intros x Hx. apply (Permutation_in _ Hperm) in Hx. rewrite Hi in Hx. apply in_rrefs in Hx. exact Hx. }
+  cbn [map concat]. rewrite app_nil_r. cbn [forallb fold_right]. rewrite !andb_true_r.
+  rewrite !andb_true_iff. split; [split; [split|]|].
+  - apply nodup_refs_spec. eapply Permutation_NoDup; [symmetry; exact Hperm|]. rewrite Hi. exact Hni.
+  - apply forallb_forall. intros x Hx. destruct (Hin_so x Hx) as [r [Hr ->]]. cbn [fst].
+    apply existsb_exists. exists (r_pool r). split; [apply Hrows; exact Hr | apply pool_eqb_eq; reflexivity].
+  - rewrite <- Hanc', Ha. split; [split; [split|]|].
+    + unfold all_spendable. apply forallb_forall. intros x Hx. destruct (Hin_so x Hx) as [r [Hr ->]].
+      destruct (Hrows r Hr) as [Hdbr [_ Hs]]. rewrite (find_row_unique db r Hnd Hdbr). exact Hs.
+    + rewrite (value_of_refs_perm db _ _ Hperm), Hi, value_of_rrefs; [lia | exact Hnd | intros r Hr; apply Hrows; exact Hr].
+    + lia.
+    + unfold step_balanced, s_change in *. rewrite <- Hchs. lia.
+  - lia.
+Qed.
